@@ -22,7 +22,7 @@ PROPS = {
     "C02": ["contracts.c01_simplifier", "contracts.c02_model"],
     "C03": ["contracts.c03_typechecker", "contracts.c06_constructors"],
     "C04": ["contracts.c04_hashcons", "contracts.c06_constructors", "contracts.c05_substitution"],
-    "C05": ["contracts.c05_substitution"],
+    "C05": ["contracts.c05_substitution", "contracts.c14_walkers"],
     "C06": ["contracts.c06_constructors"],
     "C07": ["contracts.c07_printers"],
     "C08": ["contracts.c08_parser"],
@@ -31,12 +31,12 @@ PROPS = {
     "C11": ["contracts.c11_cnf"],
     "C12": ["contracts.c12_oracles"],
     "C13": ["contracts.c13_logics"],
-    "C14": ["contracts.c14_walkers", "contracts.c13_logics", "contracts.c12_oracles", "contracts.c04_hashcons"],
-    "C15": ["contracts.c14_walkers", "contracts.c16_tracking", "contracts.c04_hashcons"],
+    "C14": ["contracts.c14_walkers", "contracts.c13_logics", "contracts.c12_oracles", "contracts.c04_hashcons", "contracts.c08_parser"],
+    "C15": ["contracts.c14_walkers", "contracts.c16_tracking", "contracts.c04_hashcons", "contracts.c08_parser", "contracts.c17_smtlib_solver"],
     "C16": ["contracts.c16_tracking", "contracts.c16_script"],
     "C17": ["contracts.c17_smtlib_solver"],
-    "C18": ["contracts.c18_optimizer", "contracts.c18_loop", "contracts.c18_multi"],
-    "C20": ["contracts.c14_walkers"],
+    "C18": ["contracts.c18_optimizer", "contracts.c18_loop", "contracts.c18_multi", "contracts.c06_constructors"],
+    "C20": ["contracts.c14_walkers", "contracts.c10_rewriters"],
 }
 
 
